@@ -83,6 +83,7 @@ impl ConnectionRunner {
 
         let config = self.config.clone();
         let connection_id = self.connection_id;
+        let out_message_consumer_id = self.out_message_consumer_id;
 
         race(
             async {
@@ -99,7 +100,12 @@ impl ConnectionRunner {
         ::log::debug!("connection {:?} starting clean up", connection_id);
 
         clean_up_data
-            .after_close(&config, control_message_senders)
+            .after_close(
+                &config,
+                control_message_senders,
+                out_message_consumer_id,
+                connection_id,
+            )
             .await;
 
         ::log::debug!("connection {:?} finished clean up", connection_id);
@@ -616,6 +622,8 @@ impl ConnectionCleanupData {
         &self,
         config: &Config,
         control_message_senders: Rc<Senders<SwarmControlMessage>>,
+        consumer_id: ConsumerId,
+        connection_id: ConnectionId,
     ) {
         let mut announced_info_hashes = HashMap::new();
 
@@ -631,6 +639,8 @@ impl ConnectionCleanupData {
         for (consumer_index, announced_info_hashes) in announced_info_hashes.into_iter() {
             let message = SwarmControlMessage::ConnectionClosed {
                 ip_version: self.ip_version,
+                consumer_id,
+                connection_id,
                 announced_info_hashes,
             };
 
